@@ -43,7 +43,7 @@ func runC15Multi(t *testing.T, sc c15MultiScenario) verdict {
 	var vs []sim.Violation
 	type row struct {
 		Start, Fan, PreWrites int
-		Sweep, Measurement   bool
+		Sweep, Measurement    bool
 	}
 	var rows []row
 	origPwm := make([]int, len(sc.Kinds))
